@@ -95,7 +95,7 @@ fn main() {
     silence_panics();
     // the commands whose every step is a call of the parser / loader on one pool input (through vh::run_* / load_*) run
     // under the stall watchdog; the others have their own limits (child processes, decode watchdog) or no parsing loop
-    if ["c01", "c02", "pipeline-replay", "ptrace", "c03", "c03-suite", "c06-suite", "c07", "c10", "c10-ops", "c12", "c13", "c14", "c15", "c16", "pool", "tlc2pool"].contains(&cmd.as_str()) {
+    if ["c01", "c02", "pipeline-replay", "ptrace", "c03", "c03-suite", "c06-suite", "c07", "c09-replay", "c09-random", "c10", "c10-ops", "c12", "c13", "c14", "c15", "c16", "c17", "c19", "pool", "tlc2pool"].contains(&cmd.as_str()) {
         vh::start_watchdog();
     }
     match cmd.as_str() {
